@@ -50,6 +50,23 @@ func (c *c08) Cases(tier string, seed int64) []core.Case {
 	}
 	cs = append(cs, core.MkCase("poly-structured", c08Params{Op: "poly-structured"}))
 	cs = append(cs, core.MkCase("fresh-process-first-operation", c08Params{Op: "fresh", Seed: seed}))
+	// The same operations in the GOARCH=386 build of the worker: int is 32
+	// bits wide there, so products of logarithms and exponents that fit an
+	// int on amd64 do not.
+	step386 := 16384
+	if tier == "thorough" {
+		step386 = 4096
+	}
+	for lo := 0; lo < 65536; lo += step386 {
+		for _, op := range []string{"times", "div", "pow"} {
+			cc := core.MkCase(fmt.Sprintf("386:%s[%d,%d)", op, lo+step386-512, lo+step386), c08Params{Op: op, Lo: lo + step386 - 512, Hi: lo + step386, Seed: seed})
+			cc.Arch386 = true
+			cs = append(cs, cc)
+		}
+	}
+	inv386 := core.MkCase("386:inverse", c08Params{Op: "inverse"})
+	inv386.Arch386 = true
+	cs = append(cs, inv386)
 	n := 250000
 	k := 8
 	if tier == "thorough" {
